@@ -163,6 +163,11 @@ def run(tier):
         c = rng.choice(configs)
         p = rng.choice(progs)
         cases.append({"id": "p%d" % k, "mode": "process", "src": p, "label": "pipeline", "generator": c["generator"], "rules": c["rules"]})
+    # the same kind of pairs with the program as a bundled MODULE
+    for k in range(npairs // 6):
+        c = rng.choice(configs)
+        p = rng.choice(progs)
+        cases.append({"id": "pb%d" % k, "mode": "bundle", "src": p, "label": "bundled-pipeline", "generator": c["generator"], "rules": c["rules"]})
     for d in ([20, 60] if tier == "quick" else [20, 60, 100]):
         for ni, p in enumerate(nesting(d)):
             for gen in ("retain_lines", "dense:1", "readable:0"):
